@@ -557,6 +557,67 @@ def constructor_purity_rule(ctx, rid: str, pid: str, floor: int = 1):
     return n
 
 
+OPT_EXEMPT = {
+    ('cirq_google.serialization.circuit_serializer', 'CircuitSerializer._serialize_circuit_op', 'constants'):
+        'in/out by contract: the constants table of the program being written is shared by all nested calls',
+    ('cirq_google.serialization.circuit_serializer', 'CircuitSerializer._serialize_circuit_op', 'raw_constants'):
+        'in/out by contract: index of the constants table shared by all nested calls',
+}
+
+
+def optional_argument_purity_rule(ctx, rid: str, pid: str, floor: int = 0):
+    repo = ctx.repo
+    ctx.rule(rid, 'optional option bags are inputs only: a parameter that defaults to None and is annotated `dict | None` / `list | None` / `set | None` (an optional bag of settings the caller '
+             'may keep and reuse) is never stored into or mutated through a method (unless the name was rebound to a copy first) - what one call adds would otherwise be sent again by the next',
+             floor=floor, style='EFF')
+    n = 0
+    for m, ci, fn in _functions(repo, pid):
+        dflt = {}
+        pos = fn.args.posonlyargs + fn.args.args
+        for a, d in zip(pos[len(pos) - len(fn.args.defaults):], fn.args.defaults):
+            dflt[a.arg] = d
+        for a, d in zip(fn.args.kwonlyargs, fn.args.kw_defaults):
+            if d is not None:
+                dflt[a.arg] = d
+        params = set()
+        for a in pos + fn.args.kwonlyargs:
+            if a.annotation is None or a.arg not in dflt:
+                continue
+            d = dflt[a.arg]
+            ann = ast.unparse(a.annotation).replace(' ', '')
+            if isinstance(d, ast.Constant) and d.value is None and ann.endswith('|None') and ann.split('[')[0].split('|')[0] in ('dict', 'list', 'set', 'Dict', 'List', 'Set'):
+                params.add(a.arg)
+        if not params:
+            continue
+        rebound: Dict[str, int] = {}
+        for s_ in ast.walk(fn):
+            if isinstance(s_, (ast.Assign, ast.AugAssign, ast.AnnAssign)):
+                for t in (s_.targets if isinstance(s_, ast.Assign) else [s_.target]):
+                    if isinstance(t, ast.Name) and t.id in params:
+                        rebound[t.id] = min(rebound.get(t.id, 10 ** 9), s_.lineno)
+        for p in sorted(params):
+            bad = None
+            for x in ast.walk(fn):
+                nm = None
+                if isinstance(x, ast.Subscript) and isinstance(x.ctx, (ast.Store, ast.Del)) and isinstance(x.value, ast.Name):
+                    nm = x.value.id
+                elif isinstance(x, ast.Call) and isinstance(x.func, ast.Attribute) and x.func.attr in _MUT_METHODS and isinstance(x.func.value, ast.Name):
+                    nm = x.func.value.id
+                if nm == p and x.lineno <= rebound.get(p, 10 ** 9):
+                    bad = x
+                    break
+            n += 1
+            qual = (ci.name + '.' if ci else '') + fn.name
+            ex = OPT_EXEMPT.get((m.name, qual, p))
+            if ex is not None:
+                ctx.ob(rid, f'{m.name}.{qual}:{p}:input-only', True, 'tabled: ' + ex, m.rel, fn.lineno)
+                continue
+            ctx.ob(rid, f'{m.name}.{qual}:{p}:input-only', bad is None, '' if bad is None else
+                   f'`{ast.unparse(bad)[:70]}` writes into the caller\'s optional `{p}`: a dict reused for the next call carries the entries of this one', m.rel,
+                   bad.lineno if bad is not None else fn.lineno)
+    return n
+
+
 FLOORS = {   # (z_fwd, z_drop, z_pair): about two thirds of the instances confirmed on the tree the rules were armed on
     'C01': (7, 40, 11),
     'C02': (4, 55, 8),
@@ -589,11 +650,12 @@ def apply(ctx, pid: str, only=None):
         'z_pair': lambda: unordered_pairing_rule(ctx, f'{pid}.z_pair', pid, floor=f3),
         'z_get': lambda: lookup_truthiness_rule(ctx, f'{pid}.z_get', pid, floor=0),
         'z_ctor': lambda: constructor_purity_rule(ctx, f'{pid}.z_ctor', pid, floor=1),
+        'z_opt': lambda: optional_argument_purity_rule(ctx, f'{pid}.z_opt', pid, floor=0),
     }
     out = {}
     for k, f in rules.items():
         if only is None or k in only:
             out[k] = f()
     ctx.decided.append(f'{pid}.z_* general rules on the functions attributed to this property: sibling calls forward the same parameters (z_fwd), a wrapper does not swallow an option its '
-                       'callee accepts (z_drop), positional pairing only over ordered collections (z_pair), presence of a key is not tested by truthiness of the value (z_get), constructors do not mutate their arguments (z_ctor)')
+                       'callee accepts (z_drop), positional pairing only over ordered collections (z_pair), presence of a key is not tested by truthiness of the value (z_get), constructors do not mutate their arguments (z_ctor), optional option bags are inputs only (z_opt)')
     return out
